@@ -230,6 +230,8 @@ fn outcome_of(r: &serde_json::Value) -> String {
 fn judge(p: &Prog, bits: u32, r: &serde_json::Value) -> Option<Failure> {
     let status = r["status"].as_str().unwrap_or("?");
     let multi = p.ast.as_ref().map_or_else(|| src_has_multi_record_alts(&p.main) || p.modules.iter().any(|m| src_has_multi_record_alts(&m.1)), |(a, _)| has_multi_record_alts(&a.expr));
+    let multi = multi || p.tags.iter().any(|t| t == "multi-record-alts");
+    let permuted = p.tags.iter().any(|t| t == "permuted-record-fields") || p.ast.as_ref().map_or(false, |(a, _)| has_reordered_annotated_record(&a.expr));
     let io_mod = p.tags.iter().any(|t| t == "imports-io-module");
     match status {
         "value" | "rejected" | "accepted" | "checker-panic" => {
@@ -271,7 +273,7 @@ fn judge(p: &Prog, bits: u32, r: &serde_json::Value) -> Option<Failure> {
                 "shape:cannot-call:imported-io-module:run_io".to_string()
             } else if multi {
                 format!("shape:{}:multi-record-alts", slug(c))
-            } else if p.ast.as_ref().map_or(false, |(a, _)| has_reordered_annotated_record(&a.expr)) {
+            } else if permuted {
                 format!("shape:{}:permuted-record-fields", slug(c))
             } else {
                 format!("shape:{}:{:08x}", slug(c), fnv(p.main.as_bytes()) as u32)
@@ -286,6 +288,8 @@ fn judge(p: &Prog, bits: u32, r: &serde_json::Value) -> Option<Failure> {
                 "ice:pattern-translator:multi-record-alts".to_string()
             } else if multi && msg.starts_with("expected ValueRef") {
                 "shape:value-of-wrong-shape:multi-record-alts".to_string()
+            } else if msg.starts_with("Expected record, got") {
+                "ice:vm/src/compiler.rs:expected-record:empty-record-pattern".to_string()
             } else {
                 // the leading words of the message (no addresses, names or types): a stable key
                 let head: String = msg.chars().take_while(|c| c.is_ascii_alphabetic() || *c == ' ' || *c == ',').take(40).collect();
@@ -315,9 +319,10 @@ fn judge(p: &Prog, bits: u32, r: &serde_json::Value) -> Option<Failure> {
 }
 
 // ---------------------------------------------------------------- parallel evaluation
-/// Runs `jobs` (program index, bits, mode) on `workers` child processes; bits are pinned to a
+/// Runs `jobs` (program index, bits, mode) on the pool's child processes; bits are pinned to a
 /// worker (bits % workers) so that each child keeps few VMs alive.
-fn run_jobs(progs: &[Prog], jobs: Vec<(usize, u32, &'static str)>, workers: usize) -> (Vec<(usize, u32, serde_json::Value)>, u64) {
+fn run_jobs(progs: &[Prog], jobs: Vec<(usize, u32, &'static str)>, pool: &mut Vec<Child>) -> Vec<(usize, u32, serde_json::Value)> {
+    let workers = pool.len();
     let mut queues: Vec<Vec<(usize, u32, &'static str)>> = vec![vec![]; workers];
     for j in jobs {
         queues[(j.1 as usize) % workers].push(j);
@@ -332,26 +337,21 @@ fn run_jobs(progs: &[Prog], jobs: Vec<(usize, u32, &'static str)>, workers: usiz
         }
     }
     let results = Arc::new(Mutex::new(Vec::new()));
-    let crashes = Arc::new(Mutex::new(0u64));
     std::thread::scope(|s| {
-        for q in queues {
+        for (q, child) in queues.into_iter().zip(pool.iter_mut()) {
             let results = results.clone();
-            let crashes = crashes.clone();
             s.spawn(move || {
-                let mut child = Child::new();
                 let mut local = Vec::with_capacity(q.len());
                 for (pi, bits, mode) in q {
                     let r = child.ask(&progs[pi].req(bits, mode));
                     local.push((pi, bits, r));
                 }
-                *crashes.lock().unwrap() += child.crashes;
                 results.lock().unwrap().extend(local);
             });
         }
     });
     let r = std::mem::take(&mut *results.lock().unwrap());
-    let c = *crashes.lock().unwrap();
-    (r, c)
+    r
 }
 
 // ---------------------------------------------------------------- shrinking
@@ -567,7 +567,8 @@ fn main() {
 
     // ---- B. acceptance by the real checker (base setting)
     let jobs: Vec<(usize, u32, &'static str)> = (0..progs.len()).map(|i| (i, BASE_BITS, "check")).collect();
-    let (checked, crashes_b) = run_jobs(&progs, jobs, workers);
+    let mut pool: Vec<Child> = (0..workers.max(1)).map(|_| Child::new()).collect();
+    let checked = run_jobs(&progs, jobs, &mut pool);
     let mut accepted: Vec<bool> = vec![false; progs.len()];
     let mut checker_panics: Vec<serde_json::Value> = vec![];
     let mut rejected_constructed: Vec<serde_json::Value> = vec![];
@@ -620,12 +621,12 @@ fn main() {
         }
     }
     let n_runs = jobs.len();
-    let (ran, crashes_c) = run_jobs(&progs, jobs, workers);
-    let mut by_prog: BTreeMap<usize, BTreeMap<u32, serde_json::Value>> = BTreeMap::new();
-    for (pi, bits, r) in ran {
-        by_prog.entry(pi).or_default().insert(bits, r);
+    // chunks of programs: run, judge, write, forget (the replies of a thorough run do not fit in memory)
+    let mut jobs_by_prog: BTreeMap<usize, Vec<(usize, u32, &'static str)>> = BTreeMap::new();
+    for j in jobs {
+        jobs_by_prog.entry(j.0).or_default().push(j);
     }
-    eprintln!("[c02] {} runs done ({:.1}s)", n_runs, t0.elapsed().as_secs_f64());
+    let prog_order: Vec<usize> = jobs_by_prog.keys().copied().collect();
 
     // ---- D. monitor
     let mut failures: Vec<(usize, Failure)> = vec![];
@@ -640,6 +641,14 @@ fn main() {
     let mut us_total: u64 = 0;
     let mut opt_div_count = 0u64;
     let mut opt_div_samples: Vec<serde_json::Value> = vec![];
+    for chunk in prog_order.chunks(1500) {
+    let chunk_jobs: Vec<(usize, u32, &'static str)> = chunk.iter().flat_map(|pi| jobs_by_prog[pi].clone()).collect();
+    let ran = run_jobs(&progs, chunk_jobs, &mut pool);
+    let mut by_prog: BTreeMap<usize, BTreeMap<u32, serde_json::Value>> = BTreeMap::new();
+    for (pi, bits, r) in ran {
+        by_prog.entry(pi).or_default().insert(bits, r);
+    }
+    eprintln!("[c02] chunk of {} programs run ({:.1}s)", chunk.len(), t0.elapsed().as_secs_f64());
     for (&pi, rs) in &by_prog {
         let p = &progs[pi];
         let mut seen_shape: HashSet<String> = HashSet::new();
@@ -736,6 +745,9 @@ fn main() {
             samples.push(json!({"program": p.to_json(), "outcome_base": rs.get(&BASE_BITS).map(outcome_of), "type": rs.get(&BASE_BITS).map(|r| r["type"].clone())}));
         }
     }
+    }
+    let crashes_b: u64 = 0;
+    let crashes_c: u64 = pool.iter().map(|c| c.crashes).sum();
     model_in.flush().unwrap();
     impl_out.flush().unwrap();
     cases.flush().unwrap();
@@ -746,7 +758,7 @@ fn main() {
     for (pi, f) in failures {
         per_key.entry(f.key.clone()).or_default().push((pi, f));
     }
-    let mut child = Child::new();
+    let child = &mut pool[0];
     for (key, fs) in &per_key {
         let mut progs_of_key: Vec<usize> = fs.iter().map(|x| x.0).collect();
         progs_of_key.dedup();
@@ -763,7 +775,7 @@ fn main() {
         let (pi, f) = firsts[0];
         let p = &progs[*pi];
         let failing_bits: Vec<u32> = fs.iter().filter(|x| x.0 == *pi).map(|x| x.1.bits).collect();
-        let shrunk = if shrink_budget > 0 { shrink(p, f, &mut child, shrink_budget) } else { None };
+        let shrunk = if shrink_budget > 0 { shrink(p, f, child, shrink_budget) } else { None };
         writeln!(fout, "{}", json!({
             "key": key, "what": f.what, "observed": f.observed, "bits": f.bits, "settings": bits_name(f.bits),
             "failing_settings": failing_bits.iter().map(|b| bits_name(*b)).collect::<Vec<_>>(),
